@@ -76,6 +76,9 @@ type c21Model struct {
 	cooldown int
 	slack    int // ages in [cooldown-slack, cooldown] are timing dependent
 	past     []c21Stale
+	// loose[o]: the ordinal has been in the timing-dependent band since it was released, so the
+	// pass that freed it - and with it its place in the free list - is not known to the model.
+	loose [c21N]bool
 }
 
 func c21NewModel(cooldown, slack int) *c21Model {
@@ -88,24 +91,20 @@ func c21NewModel(cooldown, slack int) *c21Model {
 	return m
 }
 
-// gc mirrors one garbage-collection pass.  isFree reports what the real block did, consulted
-// only for timing-dependent ordinals.
-func (m *c21Model) gc(isFree func(ord int) bool) {
+// gc mirrors one garbage-collection pass.  Ordinals in the timing-dependent band are left
+// cooling (the comparison accepts either state for them).
+func (m *c21Model) gc(_ func(ord int) bool) {
 	var batch []int
 	for o := 0; o < c21N; o++ {
 		x := &m.ords[o]
 		if x.state != c21Cooling {
 			continue
 		}
-		switch {
-		case x.age > m.cooldown:
+		if m.cooldown == 0 || x.age > m.cooldown {
 			x.state = c21Free
 			batch = append(batch, o)
-		case x.age >= m.cooldown-m.slack:
-			if isFree(o) {
-				x.state = c21Free
-				batch = append(batch, o)
-			}
+		} else if m.timingDependent(o) {
+			m.loose[o] = true
 		}
 	}
 	if len(batch) > 0 {
@@ -117,27 +116,7 @@ func (m *c21Model) gc(isFree func(ord int) bool) {
 // wall clock decides whether a garbage-collection pass frees it.
 func (m *c21Model) timingDependent(o int) bool {
 	x := m.ords[o]
-	return x.state == c21Cooling && x.age <= m.cooldown && x.age >= m.cooldown-m.slack
-}
-
-// resync is used after an operation that wrote the block: if its own pass freed a
-// timing-dependent ordinal that the model (which looked a moment earlier) had kept, adopt the
-// persisted free list, in its exact order.
-func (m *c21Model) resync(raw *model.AllocationBlock) {
-	changed := false
-	for o := 0; o < c21N; o++ {
-		if m.timingDependent(o) && raw.Allocations[o] == nil {
-			m.ords[o] = c21Ord{state: c21Free}
-			changed = true
-		}
-	}
-	if !changed {
-		return
-	}
-	m.queue = nil
-	for _, o := range raw.Unallocated {
-		m.queue = append(m.queue, []int{o})
-	}
+	return x.state == c21Cooling && m.cooldown > 0 && x.age <= m.cooldown && x.age >= m.cooldown-m.slack
 }
 
 func (m *c21Model) clone() *c21Model {
@@ -152,7 +131,22 @@ func (m *c21Model) clone() *c21Model {
 
 // take removes ordinal o from the head batch; false if it is not there.
 func (m *c21Model) take(o int) bool {
-	for len(m.queue) > 0 && len(m.queue[0]) == 0 {
+	// batches that only hold loose ordinals do not constrain the order
+	for len(m.queue) > 0 {
+		definite := 0
+		for _, x := range m.queue[0] {
+			if !m.loose[x] {
+				definite++
+			}
+		}
+		if definite > 0 {
+			break
+		}
+		if len(m.queue) == 1 {
+			break
+		}
+		// move its loose members to the next batch so that they stay in the model's free set
+		m.queue[1] = append(m.queue[1], m.queue[0]...)
 		m.queue = m.queue[1:]
 	}
 	if len(m.queue) == 0 {
@@ -247,6 +241,9 @@ func (m *c21Model) compare(b *model.AllocationBlock) string {
 			}
 		case c21Cooling:
 			if idx == nil {
+				if m.timingDependent(o) {
+					continue // the wall clock decided
+				}
 				return fmt.Sprintf("ordinal %d: released %ds ago with cooldown %ds, but the block already has it on the free list", o, x.age, m.cooldown)
 			}
 			if b.Attributes[*idx].ReleasedAt == nil {
@@ -254,26 +251,37 @@ func (m *c21Model) compare(b *model.AllocationBlock) string {
 			}
 		}
 	}
-	// free list = concatenation of the batches, each in any order
+	// free list = concatenation of the batches, each in any order; ordinals whose freeing pass is
+	// unknown (loose) are left out of the order comparison
+	var free []int
+	for _, o := range b.Unallocated {
+		if !m.loose[o] {
+			free = append(free, o)
+		}
+	}
 	i := 0
 	for _, batch := range m.queue {
 		want := map[int]bool{}
+		n := 0
 		for _, o := range batch {
-			want[o] = true
+			if !m.loose[o] {
+				want[o] = true
+				n++
+			}
 		}
-		for range batch {
-			if i >= len(b.Unallocated) {
-				return fmt.Sprintf("free list %v shorter than model queue %v", b.Unallocated, m.queue)
+		for k := 0; k < n; k++ {
+			if i >= len(free) {
+				return fmt.Sprintf("free list %v shorter than model queue %v (loose %v)", b.Unallocated, m.queue, m.loose)
 			}
-			if !want[b.Unallocated[i]] {
-				return fmt.Sprintf("free list %v does not follow the FIFO batches %v (position %d)", b.Unallocated, m.queue, i)
+			if !want[free[i]] {
+				return fmt.Sprintf("free list %v does not follow the FIFO batches %v (position %d, loose %v)", b.Unallocated, m.queue, i, m.loose)
 			}
-			delete(want, b.Unallocated[i])
+			delete(want, free[i])
 			i++
 		}
 	}
-	if i != len(b.Unallocated) {
-		return fmt.Sprintf("free list %v longer than model queue %v", b.Unallocated, m.queue)
+	if i != len(free) {
+		return fmt.Sprintf("free list %v longer than model queue %v (loose %v)", b.Unallocated, m.queue, m.loose)
 	}
 	return ""
 }
@@ -475,9 +483,10 @@ func c21RunHistory(t *rapid.T, rec *ev.Recorder, ex c21Exec, m *c21Model, nOps i
 			}
 			b := ex.block()
 			for _, o := range ords {
-				if m.timingDependent(o) {
-					// freed by this operation's pass a moment after the model looked: it went to
-					// the tail of the free list and was handed out from there
+				if m.timingDependent(o) || (m.loose[o] && m.ords[o].state == c21Free) {
+					// the wall clock decided when it was freed; its place in the FIFO is unknown
+					m.remove(o)
+					m.loose[o] = false
 					m.ords[o] = c21Ord{state: c21Alloc, handle: r.handle, seq: b.GetSequenceNumberForOrdinal(o)}
 					classes["timing-dependent-handout"] = true
 					continue
@@ -492,6 +501,7 @@ func c21RunHistory(t *rapid.T, rec *ev.Recorder, ex c21Exec, m *c21Model, nOps i
 					fail("autoAssign handed out ordinal %d which is not at the head of the free FIFO %v (longest-free first)", o, m.queue)
 				}
 				m.ords[o] = c21Ord{state: c21Alloc, handle: r.handle, seq: b.GetSequenceNumberForOrdinal(o)}
+				m.loose[o] = false
 			}
 			if len(ords) > 0 && len(m.queue) > 1 {
 				classes["fifo-multi-batch"] = true
@@ -507,6 +517,11 @@ func c21RunHistory(t *rapid.T, rec *ev.Recorder, ex c21Exec, m *c21Model, nOps i
 					fail("assign of free ordinal %d failed: %v", r.ord, err)
 				}
 				m.remove(r.ord)
+				m.loose[r.ord] = false
+				m.ords[r.ord] = c21Ord{state: c21Alloc, handle: r.handle, seq: ex.block().GetSequenceNumberForOrdinal(r.ord)}
+				persisted = true
+			} else if err == nil && m.timingDependent(r.ord) {
+				m.loose[r.ord] = false
 				m.ords[r.ord] = c21Ord{state: c21Alloc, handle: r.handle, seq: ex.block().GetSequenceNumberForOrdinal(r.ord)}
 				persisted = true
 			} else if err == nil {
@@ -610,6 +625,10 @@ func c21RunHistory(t *rapid.T, rec *ev.Recorder, ex c21Exec, m *c21Model, nOps i
 				if m.ords[o].state == c21Cooling {
 					m.ords[o].age += r.dt
 					classes["time-advanced-while-cooling"] = true
+					if m.timingDependent(o) {
+						m.loose[o] = true
+						classes["timing-dependent"] = true
+					}
 				}
 			}
 			log = append(log, fmt.Sprintf("#%d %s", i, r))
@@ -621,8 +640,6 @@ func c21RunHistory(t *rapid.T, rec *ev.Recorder, ex c21Exec, m *c21Model, nOps i
 			past := m.past
 			m = saved
 			m.past = past
-		} else if raw := ex.raw(); raw != nil {
-			m.resync(raw)
 		}
 		check(fmt.Sprintf("after #%d %s", i, r))
 	}
@@ -849,7 +866,7 @@ func TestVerifC21Client(t *testing.T) {
 	ev.Quiet()
 	rec := ev.New("C21", "client",
 		"the same generated histories through the full IPAM client (AutoAssign, AssignIP, ReleaseIPs with handle / sequence number, ReleaseByHandle) on verifkit/memds: one host, pool 10.0.0.0/29 = one block, IPCooldownSeconds 0, 10 or 60; time advances shift the persisted ReleasedAt. Non-trivial = ABA release (as in the block unit); distinct = distinct (cooldown, operation-kind sequence)",
-		"persisted ReleasedAt has second granularity (JSON), so ages in [cooldown-1, cooldown] are treated as timing dependent")
+		"persisted ReleasedAt has second granularity (JSON) and the machine may stall, so ages in [cooldown-3, cooldown] are treated as timing dependent (state and FIFO position of such ordinals are not asserted)")
 	defer rec.Write()
 	rapid.Check(t, func(t *rapid.T) {
 		cooldown := rapid.SampledFrom([]int{0, 0, 10, 60}).Draw(t, "cooldown")
@@ -873,7 +890,7 @@ func TestVerifC21Client(t *testing.T) {
 		if _, _, err := e.ic.ClaimAffinity(ctx, cidr, AffinityConfig{AffinityType: AffinityTypeHost, Host: "n1"}); err != nil {
 			t.Fatalf("HARNESS-GAP: %v", err)
 		}
-		m := c21NewModel(cooldown, 1)
+		m := c21NewModel(cooldown, 3)
 		c21RunHistory(t, rec, e, m, rapid.IntRange(8, ev.Scale(24, 50)).Draw(t, "nOps"))
 	})
 }
